@@ -237,7 +237,7 @@ dataLoop:
 				shard.Pledge = newPledge
 
 				pledge, _ := k.node.GetPledge(ctx, shard.Sp)
-				pledge.TotalStoragePledged = pledge.TotalStoragePledged.Add(extraPledge)
+				pledge.TotalShardPledged = pledge.TotalShardPledged.Add(extraPledge)
 				k.node.SetPledge(ctx, pledge)
 			}
 
